@@ -211,12 +211,20 @@ func c04Build(co c04Coord, r *vf.Rand) c04Case {
 	str := func(kind, name string, val *string) {
 		switch kind {
 		case "ok":
-			s := vf.Pick(r, []string{"joe", "https://issuer.example/", "a b", "ü", ""})
-			if name == "jti" {
-				s = fmt.Sprintf("id-%d", r.Intn(1000))
+			// string CONTENT dimension: the member is a JSON literal (raw characters or escapes); the
+			// value the verifier must see is its standard-library decoding
+			lit := vf.Pick(r, []string{`"joe"`, `"https://issuer.example/"`, `"a b"`, `"ü"`, `""`})
+			if r.Intn(3) == 0 {
+				lit = vf.Pick(r, p04StringLits())
 			}
-			b, _ := json.Marshal(s)
-			ms = append(ms, member{name, string(b)})
+			if name == "jti" && r.Intn(2) == 0 {
+				lit = fmt.Sprintf(`"id-%d"`, r.Intn(1000))
+			}
+			var s string
+			if json.Unmarshal([]byte(lit), &s) != nil {
+				lit, s = `"joe"`, "joe"
+			}
+			ms = append(ms, member{name, lit})
 			if val != nil {
 				*val = s
 			}
@@ -234,9 +242,16 @@ func c04Build(co c04Coord, r *vf.Rand) c04Case {
 		n := r.Intn(3) + 1
 		var el []string
 		for i := 0; i < n; i++ {
-			a := fmt.Sprintf("aud%d", i)
+			lit := fmt.Sprintf(`"aud%d"`, i)
+			if r.Intn(4) == 0 {
+				lit = vf.Pick(r, p04StringLits())
+			}
+			var a string
+			if json.Unmarshal([]byte(lit), &a) != nil {
+				lit, a = `"aud"`, "aud"
+			}
 			kn.Aud = append(kn.Aud, a)
-			el = append(el, `"`+a+`"`)
+			el = append(el, lit)
 		}
 		ms = append(ms, member{"aud", "[" + strings.Join(el, ",") + "]"})
 	case "mixed":
@@ -269,6 +284,33 @@ func c04Build(co c04Coord, r *vf.Rand) c04Case {
 	str(co.jti, "jti", nil)
 	if r.Intn(3) == 0 {
 		ms = append(ms, member{"http://example.com/is_root", vf.Pick(r, []string{"true", `{"n":[1,2.50,"x"]}`, "1e2"})})
+	}
+	// claim-NAME spelling dimension: unregistered members whose names only look like registered
+	// ones (case, fold-equivalents, space) with values that would flip the outcome if they were read
+	if r.Intn(3) == 0 {
+		now := c04Instant(co.clk.sec, co.clk.nsec)
+		past := c04FormatInstant(new(big.Int).Sub(now, big.NewInt(5000000000)), 0)
+		future := c04FormatInstant(new(big.Int).Add(now, big.NewInt(5000000000)), 0)
+		for _, n := range []string{"iss", "sub", "aud", "exp", "nbf", "iat", "jti"} {
+			if r.Intn(2) == 0 {
+				continue
+			}
+			vname := vf.Pick(r, p04NameVariants(n))
+			var v string
+			switch n {
+			case "iss", "sub", "jti":
+				v = vf.Pick(r, []string{`"evil-` + n + `"`, "7", "null"})
+			case "aud":
+				v = vf.Pick(r, []string{`["evil-aud"]`, `"evil-aud"`, `[1]`})
+			case "exp":
+				v = vf.Pick(r, []string{past, "3", `"soon"`, future})
+			case "nbf":
+				v = vf.Pick(r, []string{future, "99999999999", `[]`, past})
+			case "iat":
+				v = vf.Pick(r, []string{`"x"`, "1e30", past})
+			}
+			ms = append(ms, member{vname, v})
+		}
 	}
 	// shuffle member order
 	for i := len(ms) - 1; i > 0; i-- {
